@@ -103,6 +103,297 @@ theorem len_scale_list_redefines_anis (l1 l2 : F) (anis : List F) (h1 : l1 ≠ 0
   · simp [setLenAnis, hz, finishAnis, hp']
   · simp [setLenAnis, hz]
 
+/-! ## Bounds: rejection, and the invariant along non-raising histories -/
+
+/-- interval reading of `InBnd` (the comparisons `check_arg_in_bounds` makes) -/
+theorem inBnd_iff (b : Bnd F) (v : F) :
+    InBnd b v ↔ (∀ l, b.lo = some l → if b.loC then l ≤ v else l < v) ∧
+                (∀ h, b.hi = some h → if b.hiC then v ≤ h else v < h) := by
+  obtain ⟨lo, hi, loC, hiC⟩ := b
+  cases lo <;> cases hi <;> cases loC <;> cases hiC <;> simp [InBnd, not_lt, not_le]
+
+/-- Values outside their bounds are always rejected: a plain setter (anything but the bounds
+    operations and `rescale`) that does NOT raise leaves EVERY argument inside its bounds — in particular
+    the assigned one.  (Contrapositive: an assignment that puts any argument outside its bounds raises.) -/
+theorem accepted_in_bounds (sp : ClassSpec F) (s : State F) (op : Op F) (hp : Op.plain sp op = true)
+    (hr : ∀ v, op ≠ .setRescale v) (h : (step sp s op).err = none) :
+    InBounds sp (step sp s op).st :=
+  step_ok_inBounds sp s op hp hr h
+
+/-- the directly assigned value is what is checked: an out-of-bounds `nugget`, `len_scale`, optional
+    argument or (raw) variance raises `ValueError` -/
+theorem rejects_out_of_bounds (sp : ClassSpec F) (s : State F) (hw : WF s) (v : F) :
+    (¬ InBnd s.nugB v → (step sp s (.setNugget v)).err ≠ none) ∧
+    (¬ InBnd s.lenB v → (step sp s (.setLenScale [v])).err ≠ none) ∧
+    (¬ InBnd s.varB (v * varFactor sp s) → (step sp s (.setVarRaw v)).err ≠ none) ∧
+    (varFactor sp s ≠ 0 → ¬ InBnd s.varB v → (step sp s (.setVar v)).err ≠ none) ∧
+    (∀ n b, (∃ x, (⟨n, x, b⟩ : OptArg F) ∈ s.opt) → ¬ InBnd b v → (step sp s (.setOpt n v)).err ≠ none) := by
+  refine ⟨fun hv he => hv ?_, fun hv he => hv ?_, fun hv he => hv ?_, fun hvf hv he => hv ?_, ?_⟩
+  · exact (accepted_in_bounds sp s _ rfl (fun _ h => by cases h) he).2.2.1
+  · have h2 := (accepted_in_bounds sp s _ rfl (fun _ h => by cases h) he).2.1
+    simp only [step, doSetLenScale, setLenAnis_scalar hw v] at h2
+    exact h2
+  · exact (accepted_in_bounds sp s _ rfl (fun _ h => by cases h) he).1
+  · have h2 := (accepted_in_bounds sp s _ rfl (fun _ h => by cases h) he).1
+    have hz : ¬ (varFactor sp s = (zero : F)) := by rw [zero_eq]; exact hvf
+    simp only [step, doSetVar, if_neg hz, chk, var] at h2
+    have hvf2 : varFactor sp ({ s with varRaw := v / varFactor sp s } : State F) = varFactor sp s := rfl
+    rw [hvf2, div_mul_cancel₀ _ hvf] at h2
+    exact h2
+  · rintro n b ⟨x, hx⟩ hv he
+    apply hv
+    have h2 := (accepted_in_bounds sp s _ rfl (fun _ h => by cases h) he).2.2.2.2
+    have hhas : hasOpt s n = true := by
+      simp only [hasOpt, List.any_eq_true]; exact ⟨_, hx, by simp⟩
+    simp only [step, doSetOpt, hhas, Bool.not_true, Bool.false_eq_true, if_false] at h2 he
+    split at he
+    · cases he
+    · rename_i hh
+      rw [if_neg hh] at h2
+      have := h2 ⟨n, v, b⟩ (by
+        simp only [chk, List.mem_map]
+        exact ⟨_, hx, by simp⟩)
+      exact this
+
+/-- a successfully constructed model is inside its bounds -/
+theorem constructed_in_bounds (sp : ClassSpec F) {cfg : Cfg F} {s : State F} {w : Bool}
+    (h : construct sp cfg = .ok (s, w)) : InBounds sp s :=
+  (checkArgBounds_eq_none_iff sp s).mp (construct_ok h).2
+
+/-- FULL statement of the bounds clause (false of the current code, D13): every reachable state is inside
+    its bounds and a rejected assignment leaves the state unchanged -/
+def bounds_invariant_full (α : Type) [Arith α] [DecidableLT α] [DecidableLE α] [DecidableEq α] [HasRPow α] : Prop :=
+  ∀ (sp : ClassSpec α) (s : State α), Reach sp s →
+    checkArgBounds sp s = none ∧ ∀ op : Op α, (step sp s op).err ≠ none → (step sp s op).st = s
+
+/-- PROVED part: along histories of plain setters none of which raised, every state is well-formed and
+    inside its bounds (classes without variance factor and with dimension-independent bounds);
+    together with `accepted_in_bounds` / `rejects_out_of_bounds` (rejection) and `constructed_in_bounds`.
+    Missing w.r.t. the full statement: "a rejected assignment leaves the state unchanged" — false (D13). -/
+theorem bounds_invariant_partial {sp : ClassSpec F} (hsp : SpecOK sp) (htpl : sp.tpl = false) {s : State F}
+    (h : ReachOk sp s) : WF s ∧ InBounds sp s :=
+  let ⟨hw, hin, _⟩ := reachOk_invariants hsp htpl h
+  ⟨hw, (checkArgBounds_eq_none_iff sp s).mp hin⟩
+
+/-! ## Path independence -/
+
+/-- FULL statement (false of the current code, D8): for every shipped class, after any history of plain
+    setters none of which raised, the model equals one constructed directly with the resulting values -/
+def path_independent_full (α : Type) [Arith α] [DecidableLT α] [DecidableLE α] [DecidableEq α] [HasRPow α] : Prop :=
+  ∀ (name : String) (sp : ClassSpec α), specOf name = some sp → ∀ s : State α, ReachOk sp s →
+    ∃ w, construct sp (cfgOf sp s) = .ok (s, w)
+
+/-- PROVED core: a well-formed state that is inside its bounds and carries the default bounds of its
+    dimension is a fixed point of the constructor: constructing a model directly with the values read
+    off it (`dim, var, len_scale, anis, angles, nugget, rescale, optional arguments`) gives exactly this
+    state.  (`var_factor ≠ 0`, `hurst ≠ 0` only matter for the truncated-power-law classes.) -/
+theorem path_independent_partial {sp : ClassSpec F} {s : State F} (h : WF s)
+    (hfix : sp.fixDim = none ∨ sp.fixDim = some s.dim) (hb : DefaultBounds sp s)
+    (hin : InBounds sp s) (hvf : varFactor sp s ≠ 0) (hh : sp.tpl = true → optGet s "hurst" ≠ 0) :
+    construct sp (cfgOf sp s) = .ok (s, !sp.checkDim s.dim || optWarn sp s) :=
+  construct_cfgOf h hfix hb ((checkArgBounds_eq_none_iff sp s).mpr hin) hvf hh
+
+/-- PROVED for histories: for a class without variance factor, without fixed dimension and with
+    dimension-independent bounds, after ANY history of plain setters none of which raised the model equals
+    one constructed directly with the resulting values. -/
+theorem path_independent_history {sp : ClassSpec F} (hsp : SpecOK sp) (htpl : sp.tpl = false)
+    (hfix : sp.fixDim = none) {s : State F} (h : ReachOk sp s) :
+    construct sp (cfgOf sp s) = .ok (s, !sp.checkDim s.dim || optWarn sp s) := by
+  obtain ⟨hw, hin, hdb⟩ := reachOk_invariants hsp htpl h
+  refine construct_cfgOf hw (Or.inl hfix) hdb hin ?_ (fun ht => by rw [htpl] at ht; cases ht)
+  rw [varFactor_nontpl htpl]; exact one_ne_zero
+
+/-- the shipped classes without variance factor and with dimension-independent bounds satisfy the
+    hypotheses of `path_independent_history` -/
+theorem shipped_specOK (name : String)
+    (hn : name ∈ ["Gaussian", "Exponential", "Stable", "Matern", "Integral", "Rational", "Cubic", "Linear",
+      "Circular", "Spherical", "HyperSpherical"]) (sp : ClassSpec F) (hs : specOf name = some sp) :
+    SpecOK sp ∧ sp.tpl = false ∧ sp.fixDim = none := by
+  simp only [List.mem_cons, List.not_mem_nil, or_false] at hn
+  rcases hn with h | h | h | h | h | h | h | h | h | h | h <;> subst h <;>
+    simp only [specOf, Option.some.injEq] at hs <;> subst hs <;>
+    (refine ⟨⟨fun _ _ => rfl, fun _ => ?_⟩, rfl, rfl⟩; simp [plainSpec])
+
+/-- path independence for the shipped classes it holds for -/
+theorem path_independent_shipped (name : String)
+    (hn : name ∈ ["Gaussian", "Exponential", "Stable", "Matern", "Integral", "Rational", "Cubic", "Linear",
+      "Circular", "Spherical", "HyperSpherical"]) (sp : ClassSpec F) (hs : specOf name = some sp)
+    {s : State F} (h : ReachOk sp s) : ∃ w, construct sp (cfgOf sp s) = .ok (s, w) :=
+  let ⟨h1, h2, h3⟩ := shipped_specOK name hn sp hs
+  ⟨_, path_independent_history h1 h2 h3 h⟩
+
+/-! ## Frame conditions and documented couplings -/
+
+/-- assigning one parameter changes nothing else: scalar `len_scale` keeps the anisotropy (also the time
+    ratio of lat-lon + temporal models, D7), `nugget`, `var_raw`, `angles` only touch their own field -/
+theorem frame_conditions (sp : ClassSpec F) (s : State F) (hw : WF s) (v : F) (vs : List F) :
+    (step sp s (.setLenScale [v])).st = { s with lenScale := v } ∧
+    (step sp s (.setNugget v)).st = { s with nugget := v } ∧
+    (step sp s (.setVarRaw v)).st = { s with varRaw := v } ∧
+    (step sp s (.setAngles vs)).st = { s with angles := setModelAngles s.dim vs s.latlon s.temporal } ∧
+    (∃ a, (step sp s (.setAnis vs)).st = { s with anis := a }) ∧
+    (varFactor sp s ≠ 0 → (step sp s (.setVar v)).st = { s with varRaw := v / varFactor sp s }) := by
+  refine ⟨?_, rfl, rfl, rfl, ?_, ?_⟩
+  · simp only [step, doSetLenScale, setLenAnis_scalar hw v, chk]
+  · simp only [step, doSetAnis]
+    split
+    · exact ⟨s.anis, rfl⟩
+    · rename_i l a heq
+      rw [setLenAnis_single hw.dim_pos] at heq
+      obtain ⟨h1, _, _⟩ := finishAnis_ok heq
+      exact ⟨a, by simp only [chk, h1]⟩
+  · intro hvf
+    have hz : ¬ (varFactor sp s = (zero : F)) := by rw [zero_eq]; exact hvf
+    simp only [step, doSetVar, if_neg hz, chk]
+
+/-- documented coupling: for truncated-power-law classes the stored quantity is the intensity
+    `var_raw`; `len_scale`, `rescale` and the optional arguments leave it unchanged, so the variance
+    `var = var_raw * var_factor` follows them -/
+theorem tpl_variance_follows_intensity (sp : ClassSpec F) (s : State F) (ls : List F) (r : Option F)
+    (n : String) (v : F) :
+    (step sp s (.setLenScale ls)).st.varRaw = s.varRaw ∧
+    (step sp s (.setRescale r)).st.varRaw = s.varRaw ∧
+    (step sp s (.setOpt n v)).st.varRaw = s.varRaw ∧
+    ∀ op, var sp (step sp s op).st = (step sp s op).st.varRaw * varFactor sp (step sp s op).st := by
+  refine ⟨?_, ?_, ?_, fun _ => rfl⟩
+  · simp only [step, doSetLenScale]; split <;> rfl
+  · simp only [step, doSetRescale]; split
+    · rfl
+    · split <;> rfl
+  · simp only [step, doSetOpt]; split
+    · rfl
+    · split <;> rfl
+
 end field
+
+/-! ## Refutations of the full statements on `ℚ` (the carrier the driver executes), from the witnesses
+    the search replays on the real code -/
+
+def expSpec : ClassSpec ℚ := (specOf "Exponential").get (by decide)
+def jbSpec : ClassSpec ℚ := (specOf "JBessel").get (by decide)
+
+/-- `Exponential(dim=2)` -/
+def expCfg : Cfg ℚ :=
+  { dim := 2, spatialDim := none, latlon := false, temporal := false, var := 1, varRaw := none,
+    lenScale := [1], anis := [1], angles := [0], nugget := 0, rescale := none, opt := [],
+    integralScale := none }
+
+/-- `JBessel(dim=1, nu=0)` -/
+def jbCfg : Cfg ℚ := { expCfg with dim := 1, opt := [("nu", 0)] }
+
+/-- D13 witness: `m = Exponential(dim=2); m.var = -1` raises, yet `m.var == -1` afterwards and the state is
+    out of bounds -/
+def d13Witness : Bool :=
+  match construct expSpec expCfg with
+  | .ok (s, _) =>
+    decide ((step expSpec s (.setVar (-1))).err = some (.bound "var" 2)) &&
+    decide ((step expSpec s (.setVar (-1))).st ≠ s) &&
+    decide (var expSpec (step expSpec s (.setVar (-1))).st = -1) &&
+    decide (checkArgBounds expSpec (step expSpec s (.setVar (-1))).st ≠ none)
+  | .error _ => false
+
+theorem d13Witness_true : d13Witness = true := by decide +kernel
+
+/-- the full bounds clause is false of the model of the current code (D13) -/
+theorem not_bounds_invariant_full : ¬ bounds_invariant_full ℚ := by
+  intro hfull
+  have h := d13Witness_true
+  unfold d13Witness at h
+  split at h
+  · rename_i s w heq
+    simp only [Bool.and_eq_true, decide_eq_true_eq] at h
+    obtain ⟨⟨⟨h1, h2⟩, _⟩, _⟩ := h
+    have hr : Reach expSpec s := Reach.init heq
+    exact h2 ((hfull expSpec s hr).2 (.setVar (-1)) (by rw [h1]; simp))
+  · cases h
+
+/-- … and so is "every reachable state is inside its bounds": the rejected value stays -/
+theorem rejected_value_is_stored :
+    ∃ (s : State ℚ), Reach expSpec s ∧ checkArgBounds expSpec s ≠ none ∧ var expSpec s = -1 := by
+  have h := d13Witness_true
+  unfold d13Witness at h
+  split at h
+  · rename_i s w heq
+    simp only [Bool.and_eq_true, decide_eq_true_eq] at h
+    exact ⟨_, Reach.step (.setVar (-1)) (Reach.init heq), h.2, h.1.2⟩
+  · cases h
+
+/-- D8 witness: `m = JBessel(dim=1, nu=0); m.dim = 3` is accepted, the state keeps the bounds `[-1/2, 50]`
+    of `nu`, and `JBessel(dim=3, nu=0)` is rejected by the constructor -/
+def d8Witness : Bool :=
+  match construct jbSpec jbCfg with
+  | .ok (s, _) =>
+    decide ((step jbSpec s (.setDim 3)).err = none) &&
+    decide ((step jbSpec s (.setDim 3)).st.dim = 3) &&
+    (match construct jbSpec (cfgOf jbSpec (step jbSpec s (.setDim 3)).st) with
+      | .error e => decide (e = .bound "nu" 1)
+      | .ok _ => false)
+  | .error _ => false
+
+theorem d8Witness_true : d8Witness = true := by decide +kernel
+
+/-- path independence is false of the model of the current code for the classes with dimension-dependent
+    bounds (D8) -/
+theorem not_path_independent_full : ¬ path_independent_full ℚ := by
+  intro hfull
+  have h := d8Witness_true
+  unfold d8Witness at h
+  split at h
+  · rename_i s w heq
+    simp only [Bool.and_eq_true, decide_eq_true_eq] at h
+    obtain ⟨⟨h1, _⟩, h3⟩ := h
+    have hr : ReachOk jbSpec (step jbSpec s (.setDim 3)).st :=
+      ReachOk.step (.setDim 3) (ReachOk.init heq) rfl h1
+    obtain ⟨w', hw'⟩ := hfull "JBessel" jbSpec (by simp [jbSpec]) _ hr
+    rw [hw'] at h3
+    cases h3
+  · cases h
+
+/-- a concrete non-trivial history satisfying the hypotheses of the history theorems (and on which their
+    conclusion is re-checked by evaluation): `m = Exponential(dim=2); m.dim = 3; m.len_scale = [2, 4];
+    m.anis = 1/2; m.nugget = 1/2; m.angles = [1, 1/4]` -/
+def historyWitness : Bool :=
+  match construct expSpec expCfg with
+  | .ok (s0, _) =>
+    let ops : List (Op ℚ) := [.setDim 3, .setLenScale [2, 4], .setAnis [1 / 2], .setNugget (1 / 2), .setAngles [1, 1 / 4]]
+    let s := runOps expSpec s0 ops
+    decide (s.dim = 3) && decide (s.lenScale = 2) && decide (s.anis = [1, 1 / 2]) && decide (s.angles = [1, 1 / 4, 0]) &&
+    decide (lenScaleVec s = [2, 2, 1]) && decide (checkArgBounds expSpec s = none) &&
+    (match construct expSpec (cfgOf expSpec s) with
+      | .ok (s', _) => decide (s' = s)
+      | .error _ => false)
+  | .error _ => false
+
+theorem historyWitness_true : historyWitness = true := by decide +kernel
+
+example : ∃ s : State ℚ, ReachOk expSpec s := by
+  have h := historyWitness_true
+  unfold historyWitness at h
+  split at h
+  · rename_i s w heq; exact ⟨s, ReachOk.init heq⟩
+  · cases h
+
+/-! ## The truncated-power-law variance factor on `ℝ` for `hurst = 1/2` -/
+
+noncomputable instance instHasRPowReal : HasRPow ℝ := ⟨fun x y => x ^ y⟩
+
+section real
+attribute [local instance] arithOfField
+
+/-- with `hurst = 1/2` the variance of a truncated-power-law model is `intensity * len_scale / rescale`:
+    it follows the length scale and the rescale factor linearly -/
+theorem tpl_var_hurst_half (sp : ClassSpec ℝ) (s : State ℝ) (ht : sp.tpl = true)
+    (hh : optGet s "hurst" = 1 / 2) :
+    var sp s = s.varRaw * (s.lenScale / s.rescale) := by
+  unfold var varFactor
+  rw [if_pos ht]
+  simp only [hh, two_eq]
+  show s.varRaw * ((((optGet s "len_low" + s.lenScale) / s.rescale) ^ ((2:ℝ) * (1 / 2))
+    - (optGet s "len_low" / s.rescale) ^ ((2:ℝ) * (1 / 2))) / (2 * (1 / 2))) = _
+  have : (2:ℝ) * (1 / 2) = 1 := by norm_num
+  rw [this, Real.rpow_one, Real.rpow_one]
+  ring
+
+end real
 
 end GSV.Props.C14
